@@ -1943,7 +1943,7 @@ Additional mappings can be provided.
         # Want input mapping to persist
         mappingFromFiles = Mapping()
         for dirname in hooks.customisationDirs:
-            self._readRemapFile(dirname, mappingFromFiles, mode)
+            self._readRemapFile(dirname, mappingFromFiles, mode=mode)
         mapping.merge(mappingFromFiles, overwrite=False)
 
         self.mapping = mapping
